@@ -372,7 +372,20 @@ def run(ctx):
                 lits = c.must_literals(s["bb"])
                 if any(l[0] == "cmp" and l[1] == "gt" and df.strip(l[2])[0] == "call" and df.strip(l[2])[2] == "size" for l in lits):
                     put_back = True
+        def fits(lits):
+            return any(l[0] == "cmp" and l[1] in ("le", "lt") and df.strip(l[2])[0] == "call" and df.strip(l[2])[2] == "size"
+                       and "max_size" in df.canon(l[3], b) for l in lits)
+        # the other spelling: the peeked TLV is only ever taken out where it is known to fit
+        takes = [(bi, t) for bi, t, cal in mir.iter_calls(b, name="take")
+                 if (df.named_fields(pv.op_tree(t["args"][0])) or ("",))[-1] == "peek"]
+        guarded_take = bool(takes) and all(fits(c.must_literals(bi)) for (bi, t) in takes)
+        if guarded_take:
+            put_back = True
         ret_ok = False
+        for (bi, t) in takes:
+            # the value returned is the taken TLV itself (`self.peek.take()` as the result) under the size check
+            if guarded_take and not t["dest"]["proj"] and "take(" in df.canon(pv.local_tree(0), b):
+                ret_ok = True
         for bi, si, s in mir.iter_stmts(b):
             if s["k"] == "assign" and s["p"]["l"] == 0 and s["r"]["k"] == "agg" and s["r"].get("variant") == "Some":
                 lits = c.must_literals(bi)
